@@ -12,7 +12,14 @@ CONSTANTS Depth, Width, EmitOn
 Keys == {<<"a">>, <<"b">>, <<>>, <<"a", "sp", "b">>, <<Hash, "o", "b", "j">>}
 Scalars == {[t |-> "str", s |-> <<"x">>], [t |-> "str", s |-> <<>>], [t |-> "str", s |-> <<"w2", "sp">>],
             [t |-> "num", n |-> NInt(1)], [t |-> "num", n |-> Rat(-3, 2)], [t |-> "num", n |-> Zero(-1)], [t |-> "num", n |-> NInt(1200)], [t |-> "num", n |-> NInt(1234567)], [t |-> "num", n |-> Rat(1, 8)],
+            \* round numbers where the exponent form is the shorter numeral (1e+06, -1e+06, -1.2e+07, 3.0517578125e-05) and where it is not
+            [t |-> "num", n |-> NInt(1000000)], [t |-> "num", n |-> NInt(-1000000)], [t |-> "num", n |-> NInt(100000)], [t |-> "num", n |-> NInt(-12000000)],
+            [t |-> "num", n |-> NInt(1230000)], [t |-> "num", n |-> Rat(1, 32768)], [t |-> "num", n |-> Rat(-1, 32768)], [t |-> "num", n |-> NInt(-2000000000)],
             [t |-> "bool", b |-> TRUE], [t |-> "bool", b |-> FALSE], [t |-> "null"]}
+ASSUME /\ ShortestNumeral(NInt(1000000)) = <<"1", "e", "+", "0", "6">> /\ ShortestNumeral(NInt(-12000000)) = <<"-", "1", ".", "2", "e", "+", "0", "7">>
+       /\ ShortestNumeral(NInt(1230000)) = <<"1", "2", "3", "0", "0", "0", "0">> /\ ShortestNumeral(NInt(100000)) = <<"1", "0", "0", "0", "0", "0">>
+       /\ ShortestNumeral(Rat(1, 8)) = <<"0", ".", "1", "2", "5">> /\ ShortestNumeral(Rat(-3, 2)) = <<"-", "1", ".", "5">>
+       /\ ShortestNumeral(Rat(1, 32768)) = <<"3", ".", "0", "5", "1", "7", "5", "7", "8", "1", "2", "5", "e", "-", "0", "5">>
 RECURSIVE SeqsLE(_, _)
 SeqsLE(S, n) == IF n = 0 THEN {<<>>} ELSE LET p == SeqsLE(S, n - 1) IN p \cup {Append(s, x) : s \in p, x \in S}
 Leaf == {[t |-> "str", s |-> <<"x">>], [t |-> "num", n |-> Rat(-3, 2)], [t |-> "null"]}
